@@ -61,4 +61,8 @@ def categorical_cross_entropy(
   """
   _check_y_true_contains_only_0_and_1(y_true)
 
-  return -np.sum(y_true * np.log(y_pred / np.sum(y_pred)))
+  y_true = np.asarray(y_true)
+  y_prob = np.asarray(y_pred) / np.sum(y_pred)
+  # Only the labeled classes contribute (0 * log(0) is taken as 0), so a zero
+  # probability for a class that is not labeled does not turn the loss to NaN.
+  return -np.sum(np.log(y_prob[y_true == 1]))
